@@ -632,3 +632,88 @@ def options_without_geometry_or_file_location_are_refused(mask: int):
     except ValueError:
         ok2 = False
     assert ok2 == (mask == 1), "the container's setDefaults validates every entry"
+
+
+# ----------------------------------------------------------------------------- engine models used above, checked against Python
+from enum import Enum  # noqa: E402
+
+
+class Shelf(dict):
+    """a dict subclass in the style of XSSettings: own __init__ / __getitem__, everything else inherited from dict"""
+
+    def __init__(self, *args, **kwargs):
+        dict.__init__(self, *args, **kwargs)
+        self.misses = 0
+
+    def __getitem__(self, key):
+        if key in self:
+            return dict.__getitem__(self, key)
+        self.misses += 1
+        return None
+
+
+class Plain(dict):
+    pass
+
+
+class Colour(Enum):
+    RED = 1
+    GREEN = 2
+    BLUE = 4
+
+    @classmethod
+    def names(cls):
+        return [m.name for m in cls]
+
+
+class Mark:
+    def __init__(self, name, *parts):
+        self.name = name
+        self.parts = parts
+
+
+MARKED = {Mark("first", Mark("inner")): 1, Mark("second"): 2, "plain": 3}  # a module-level constant with objects as keys
+
+
+@lemma(gen={"a": (-5, 5), "b": (-5, 5)})
+def dict_subclass_and_enum_models_agree_with_python(a: int, b: int):
+    """the same assertions run on the engine's model (dict payload of a dict subclass, enum class iteration /
+    subscription) and, natively, on Python itself"""
+    s = Shelf({"x": a}, y=b)
+    assert isinstance(s, dict) and isinstance(s, Shelf) and not isinstance({}, Shelf)
+    assert len(s) == 2 and bool(s) and list(s.keys()) == ["x", "y"] and list(s.values()) == [a, b]
+    assert s["x"] == a and s["nope"] is None and s.misses == 1 and "nope" not in s, "the class's own __getitem__ is used"
+    assert s.get("nope", 7) == 7 and s.get("y") == b, "dict.get does not go through __getitem__"
+    s["z"] = a + b
+    assert list(s.items()) == [("x", a), ("y", b), ("z", a + b)] and [k for k in s] == ["x", "y", "z"]
+    assert s == {"x": a, "y": b, "z": a + b} and {"x": a, "y": b, "z": a + b} == s, "compares as its mapping"
+    del s["x"]
+    assert "x" not in s and len(s) == 2 and s.pop("y") == b and s.setdefault("w", 3) == 3
+    s.update({"q": 1}, r=2)
+    assert sorted(s) == ["q", "r", "w", "z"]
+    e = Shelf()
+    assert not e and len(e) == 0 and e == {} and e.misses == 0
+    p = Plain(k=a)
+    assert p["k"] == a and Plain() == {} and p != Plain() and Plain([("u", 1)]) == {"u": 1}
+    try:
+        p["missing"]
+        ok = True
+    except KeyError:
+        ok = False
+    assert not ok
+    dict.__setitem__(p, "m", b)
+    assert dict.__contains__(p, "m") and dict.__len__(p) == 2
+    assert list(Colour) == [Colour.RED, Colour.GREEN, Colour.BLUE] and Colour.names() == ["RED", "GREEN", "BLUE"]
+    assert Colour["GREEN"] is Colour.GREEN and Colour.BLUE.value == 4 and Colour.RED in list(Colour)
+    try:
+        Colour["PINK"]
+        ok = True
+    except KeyError:
+        ok = False
+    assert not ok
+    keys = list(MARKED.keys())
+    assert [k.name for k in keys[:2]] == ["first", "second"] and keys[2] == "plain" and isinstance(keys[0], Mark)
+    assert keys[0].parts[0].name == "inner" and isinstance(keys[0].parts[0], Mark), "objects inside tuples of a constant's objects"
+    assert MARKED[keys[1]] == 2 and MARKED["plain"] == 3 and keys[0] in MARKED and Mark("first") not in MARKED
+    table = {Colour.RED: "r", Colour.GREEN: "g"}
+    assert table[Colour[Colour.RED.name]] == "r" and Colour.BLUE not in table
